@@ -49,6 +49,21 @@ def run(ck: vlib.Check):
     ck.assumptions += ["decoding tasks are pure (each call builds its own parser); file size multiple of 4; decode_reid=False",
                        "termination is proved under the guard n_blocks = -1 or 0 <= n_blocks <= N (refuted beyond it)"]
     ck.prove(PROOFS, "C04.v")
+    # structure obligation behind C04_pattern_listing_order_irrelevant: in concatenate(), a non-list argument is replaced by the SORTED
+    # matches of the pattern (model: concatenate_pattern reads sort_by_name of the listing).  Fail closed; the search below decides.
+    import ast as _ast
+    try:
+        tree = _ast.parse((vlib.SRC / "besio" / "raw_io.py").read_text())
+        fn = next(n for n in tree.body if isinstance(n, _ast.FunctionDef) and n.name == "concatenate")
+        globs = [n for n in _ast.walk(fn) if isinstance(n, _ast.Call) and _ast.unparse(n.func) in ("glob.glob", "glob.iglob", "glob")]
+        sorted_globs = [n for n in _ast.walk(fn) if isinstance(n, _ast.Call) and _ast.unparse(n.func) == "sorted" and n.args and not n.keywords
+                        and isinstance(n.args[0], _ast.Call) and n.args[0] in globs]
+        ck.cov["pattern_listing"] = {"glob_calls": len(globs), "wrapped_in_sorted": len(sorted_globs)}
+        if not globs or len(sorted_globs) != len(globs):
+            ck.tie_broken("structure", "raw_io.py:concatenate:pattern-listing", f"{len(globs)} glob call(s), {len(sorted_globs)} of them directly inside sorted(...): "
+                          "the model reads the files a pattern matches in name order (concatenate_pattern / sort_by_name)")
+    except Exception as e:  # noqa: BLE001
+        ck.tie_broken("structure", "raw_io.py:concatenate:pattern-listing", f"{type(e).__name__}: {e}")
     mexe, mlog = G.build_model(NATIVE_DIR)
     if mexe is None:
         ck.tie_broken("model-build", "RawExtract.v", mlog)
